@@ -148,12 +148,15 @@ PLANS = [["silent"], ["newloop", "silent"]]
 def tasks(tier, seed):
     alphabet = ALPHABET if tier == "thorough" else [k for k in ALPHABET_QUICK if k != "dup_fragment"]
     cfgs = [c for c in CONFIGS_QUICK if c["retries"] >= 1]
-    if tier == "thorough":
-        for tr in ("udp", "tcp"):
-            for ka in (False, True):
-                cfgs.append({"transport": tr, "keep_alive": ka, "T": 3, "retries": 1})
-    plans = PLANS if tier == "thorough" else PLANS[:1]
+    plans = PLANS[:1]
     ts = H.make_tasks(PROP, cfgs, alphabet, plans)
+    if tier == "thorough":
+        # full alphabet x both plans on the four T=2 configurations; T=3 and the event-loop change elsewhere with the
+        # quick alphabet (sized so that the whole tier stays within minutes)
+        q = [k for k in ALPHABET_QUICK if k != "dup_fragment"]
+        ts += H.make_tasks(PROP, cfgs, q, PLANS[1:])
+        ts += H.make_tasks(PROP, [{"transport": "udp", "keep_alive": True, "T": 3, "retries": 1},
+                                  {"transport": "tcp", "keep_alive": False, "T": 3, "retries": 1}], q, PLANS[:1])
     if tier == "quick":
         # the most expensive pair (two fragmented answers in a row: four symbolic delays) is left to the thorough tier
         ts = [t for t in ts if not (t["first"] == "two_fragments" and t["second"] == "two_fragments")]
